@@ -57,6 +57,37 @@ class BestClient:
         return None
 
 
+def _ladder_cases(fn, vel, up, lo):
+    """True / violation text / None for a body that only assigns, compares and does arithmetic on its three parameters"""
+    from ..ivlinterp import Interp as _IvI, Unsupported as _Un
+    from ..ivl import DomainError as _DE
+    allowed = (ast.Return, ast.If, ast.IfExp, ast.Compare, ast.Name, ast.Load, ast.Store, ast.Assign, ast.AugAssign, ast.Lt, ast.LtE, ast.Gt, ast.GtE, ast.BinOp, ast.UnaryOp, ast.USub,
+               ast.Add, ast.Sub, ast.Mult, ast.Div, ast.Constant, ast.Expr, ast.Pass, ast.Call, ast.BoolOp, ast.And, ast.Or, ast.Not)
+    nodes = [n for st in fn.body for n in ast.walk(st)]
+    if not all(isinstance(n, allowed) for n in nodes) or any(isinstance(n, ast.Call) and access_path(n.func) not in ("min", "max", "abs", "float") for n in nodes):
+        return None
+    # every comparison has the velocity (or a local) on one side: nothing but the position of the velocity is tested
+    for u_, l_ in ((3.0, 1.0), (2.0, 2.0), (-1.0, -5.0)):
+        d_ = (u_ - l_) / 2.0
+        for v_ in sorted({-d_ - 4.0, -d_, -d_ / 2.0, 0.0, d_ / 2.0, d_, d_ + 4.0}):
+            try:
+                it = _IvI()
+                it.concrete_lib = True
+                static = any(isinstance(d, ast.Name) and d.id == "staticmethod" for d in fn.decorator_list)
+                ps = [a.arg for a in fn.args.args]
+                vals = {vel: v_, up: u_, lo: l_}
+                args = [vals.get(p_) for p_ in ps] if static else [None] + [vals.get(p_) for p_ in ps[1:]]
+                r_ = it.call_function(fn, args)
+            except (_Un, _DE, TypeError, IndexError, KeyError):
+                return None
+            want = min(max(v_, -d_), d_)
+            if not isinstance(r_, (int, float)):
+                return None
+            if r_ != want:
+                return "with bounds (%g, %g) the maximum speed is %g; a velocity of %g comes back as %r, the clamped value is %g" % (l_, u_, d_, v_, r_, want)
+    return True
+
+
 def _inline_scan_with_marker(fn, part):
     """the dominance test written out in place: a scan over zip(new signed costs, stored best costs) that runs over the WHOLE
     lists treats the trailing constraint marker as one more objective, looked at last.  The comparator of the property decides
@@ -190,7 +221,17 @@ def r2_velocity(ctx, repo):
         if odd:
             ctx.violated("R2", C, where(mod, T.returns[0][0]), "the maximum speed is %s, expected (upper - lower) / 2" % odd[0], key="clamp")
         else:
-            ctx.violated("R2", C, where(mod, T.returns[0][0]), "the returned velocity %s is not proved within +-(upper-lower)/2" % text(rt), key="clamp")
+            # not a min/max nest.  A ladder of comparisons of the velocity with quantities computed from the two bounds depends
+            # only on where the velocity lies relative to -(u-l)/2 and +(u-l)/2: those cases are run through the body
+            lad = _ladder_cases(fn, vel, up, lo)
+            if lad is None and isinstance(rt, ast.Call) and access_path(rt.func) in ("min", "max"):
+                lad = "the returned velocity %s is not proved within +-(upper-lower)/2" % text(rt)      # a pure min/max nest that lacks a bound
+            if lad is True:
+                ctx.holds("R2", C, where(mod, fn), "a ladder of comparisons: in every position of the velocity relative to -+(%s - %s)/2 the result is the velocity clamped to that range" % (up, lo), key="clamp")
+            elif lad is None:
+                ctx.inconclusive("R2", C, where(mod, T.returns[0][0]), "the returned velocity %s is neither a min/max nest nor a comparison ladder over the bounds" % text(rt), key="clamp")
+            else:
+                ctx.violated("R2", C, where(mod, T.returns[0][0]), lad, key="clamp")
     return (vel, up, lo)
 
 
